@@ -31,7 +31,7 @@ type Op struct {
 	TS      int      `json:"ts,omitempty"`
 	// managed transactions
 	Body []Op   `json:"body,omitempty"`
-	End  string `json:"end,omitempty"` // "ok", "err", "panic" (Updates); View bodies only read
+	End  string `json:"end,omitempty"` // "ok", "err", "panic", "goexit" (Updates); View bodies only read
 	// snapshots
 	What string `json:"what,omitempty"`
 }
@@ -586,6 +586,10 @@ func (e *Engine) applyUpdates(op Op) error {
 				return sentinel
 			case "panic":
 				panic(pv)
+			case "goexit":
+				// the goroutine running the function is terminated (what t.FailNow or t.Skip do inside a callback): the function
+				// never returns, deferred calls run, nothing is recovered
+				runtime.Goexit()
 			}
 			return nil
 		})
@@ -628,6 +632,12 @@ func (e *Engine) applyUpdates(op Op) error {
 			return fmt.Errorf("Updates whose function panicked with %p: recovered %v (err=%v), want the same value re-raised", pv, recovered, retErr)
 		}
 		e.Stat["txn:updates-panic"]++
+		if writes >= 2 {
+			e.Stat["nontrivial:multi-write-txn-ended-by-error-or-panic"]++
+		}
+	case "goexit":
+		// the function never returned nil, so the transaction was never committed: the model stays as it was
+		e.Stat["txn:updates-goexit"]++
 		if writes >= 2 {
 			e.Stat["nontrivial:multi-write-txn-ended-by-error-or-panic"]++
 		}
